@@ -3,7 +3,20 @@ import Retro.Drv.RenderCommon
 namespace Retro.Drv.C06
 open Retro Retro.Render Retro.Drv Retro.Drv.RenderCommon
 
+/-- `huge <seed> <n>`: more than 65 536 triangles in one call, rendered by the implementation under every
+depth_sort setting with the z-buffer on; judged against itself only (`<3> <ndiffer> <x> <y>`). -/
+def handleHuge (impl : List String) : Verdict :=
+  let v := Verdict.ok ["huge", "zbuffer"]
+  if (impl.getD 0 "").startsWith "panic" then v.withSpec true "render-panic" s!"render panicked: {impl.getD 0 ""}"
+  else
+    match (impl.getD 1 "").toNat? with
+    | none => bad "huge output"
+    | some 0 => v
+    | some nd => v.withSpec true "order-dependence"
+        s!"{nd} of 2 depth_sort settings change the z-buffered image of a scene of more than 65536 triangles; first at pixel ({impl.getD 2 "?"},{impl.getD 3 "?"})"
+
 def handle (case impl : List String) : Verdict :=
+  if case.head? == some "huge" then handleHuge impl else
   let painter := case.contains "painter=1"
   let painter2 := case.contains "painter=2"
   let s := parseScene (case.filter fun t => !t.startsWith "painter=")
